@@ -28,6 +28,23 @@ type c19Scenario struct {
 	// InitMs / MaxMs: configured initial and maximum retransmission timeout in milliseconds (0: the defaults, 1 s and 60 s)
 	InitMs int `json:"init_ms,omitempty"`
 	MaxMs  int `json:"max_ms,omitempty"`
+	// CPMTU / SPMTU: configured path MTU of the client / server (0: the default), small enough to
+	// fragment handshake messages
+	CPMTU int `json:"cpmtu,omitempty"`
+	SPMTU int `json:"spmtu,omitempty"`
+}
+
+// c19SmallPMTU is a path MTU that fragments the hellos and still carries the harness's application messages whole.
+func c19SmallPMTU(suite uint16) int {
+	pm := c15Smallest(suite)
+	low := 64
+	if !vfIsGCM(suite) {
+		low = 96
+	}
+	if pm < low {
+		pm = low
+	}
+	return pm
 }
 
 type c19Case struct {
@@ -89,6 +106,7 @@ func c19Exec(c c19Case) c19Out {
 		}
 		snaps = append(snaps, max)
 	}
+	ccfg.PMTU, scfg.PMTU = c.Sc.CPMTU, c.Sc.SPMTU
 	if c.Sc.Resumed {
 		r := vfRunPair(ccfg, scfg, vfPairOpt{})
 		if r.CErr != nil || r.SErr != nil {
@@ -318,7 +336,7 @@ func c19Scenarios() []c19Scenario {
 }
 
 func TestVF_C19(t *testing.T) {
-	rec := vfRec("C19", "C19-faults", "fault patterns of up to k lost / duplicated / delayed datagrams (k=1 exhaustive, k=2 sampled in the quick tier and exhaustive in the thorough tier, k=3 sampled) addressed as (sender, n-th datagram incl. retransmissions), both tie-break orders, over {full,resumed} x 4 suites x client auth x Read/ReadFrom API, plus runs of 1..3 consecutive losses under configured timeouts (1 s/1 s, 1 s/2 s, 10 s/60 s, 250 ms/60 s), under virtual time (the library's dwell period is aged with the simulated clock); oracle: both handshakes complete within the sum of the first k+1 waits of the schedule (initial timeout doubling, capped at the maximum), application data then flows both ways, no expiry without a fault, views agree; non-trivial = at least one fault applied before completion; distinct = (scenario, pattern, tie-break)")
+	rec := vfRec("C19", "C19-faults", "fault patterns of up to k lost / duplicated / delayed datagrams (k=1 exhaustive, k=2 sampled in the quick tier and exhaustive in the thorough tier, k=3 sampled) addressed as (sender, n-th datagram incl. retransmissions), both tie-break orders, over {full,resumed} x 4 suites x client auth x Read/ReadFrom API, small path MTUs that fragment the hellos, plus runs of 1..3 consecutive losses under configured timeouts (1 s/1 s, 1 s/2 s, 10 s/60 s, 250 ms/60 s), under virtual time (the library's dwell period is aged with the simulated clock); oracle: both handshakes complete within the sum of the first k+1 waits of the schedule (initial timeout doubling, capped at the maximum), application data then flows both ways, no expiry without a fault, views agree; non-trivial = at least one fault applied before completion; distinct = (scenario, pattern, tie-break)")
 	scs := c19Scenarios()
 	kinds := []string{"drop", "dup", "delay", "delay2"}
 	idx := 0
@@ -425,9 +443,42 @@ func TestVF_C19(t *testing.T) {
 			}
 		}
 	}
+	// small path MTUs (fragmented hellos): every single fault on the first datagrams of each side
+	for _, suite := range []uint16{ECC_SM4_GCM_SM3, ECC_SM4_CBC_SM3} {
+		pm := c19SmallPMTU(suite)
+		for _, resumed := range []bool{false, true} {
+			for _, both := range []bool{false, true} {
+				sc := c19Scenario{Suite: suite, Resumed: resumed, CPMTU: pm}
+				if both {
+					sc.SPMTU = pm
+				}
+				idx++
+				if vfMine(idx) {
+					report(c19Case{Sc: sc})
+				}
+				for dir := 0; dir < 2; dir++ {
+					for nth := 0; nth < 6; nth++ {
+						for _, k := range kinds {
+							idx++
+							if vfMine(idx) {
+								report(c19Case{Sc: sc, Faults: []vfFault{{Kind: k, Dir: dir, Nth: nth}}, Tie: idx % 2})
+							}
+						}
+					}
+				}
+			}
+		}
+	}
 	rec.SetExhaustive(false, fmt.Sprintf("%d enumerated patterns (k=1 exhaustive per visited scenario; k=2 exhaustive in the thorough tier, 1 in 7 in the quick tier); k=3 sampled by rapid", idx))
 	vfRapid(t, rec, "k3", vfN(300, 8000), func(t *rapid.T) {
 		sc := rapid.SampledFrom(scs).Draw(t, "sc")
+		if rapid.IntRange(0, 3).Draw(t, "smallpmtu") == 0 {
+			pm := c19SmallPMTU(sc.Suite) + rapid.SampledFrom([]int{0, 3, 20, 60}).Draw(t, "pmplus")
+			sc.CPMTU = pm
+			if rapid.Bool().Draw(t, "spmtu") {
+				sc.SPMTU = pm
+			}
+		}
 		n := rapid.IntRange(1, 3).Draw(t, "k")
 		var fs []vfFault
 		for i := 0; i < n; i++ {
